@@ -293,6 +293,7 @@ pub mod fs {
         ensures
             r is Ok ==> readable(w.fs, p.pathv()) && utf8(r->Ok_0@) == bytes_at(w.fs, p.pathv()),
             r is Err && !exists_at(w.fs, p.pathv()) ==> r->Err_0.spec_kind() == io::ErrorKind::NotFound,
+            w.healthy && readable(w.fs, p.pathv()) && (exists|s: Seq<char>| utf8(s) == bytes_at(w.fs, p.pathv())) ==> r is Ok,
     { unimplemented!() }
     /// rename(2)
     #[verifier::external_body]
